@@ -23,6 +23,12 @@
 // valid / open / missing / too short / invalid themselves, in every order,
 // through every build mode, AddFeature(area) on both mutable worlds and the
 // replacement of a path under an accepted area; validated the same way.
+//
+// Part D (engine E1, tags.go): features with a path-typed ID whose tags are
+// degenerate (no path tag, path tag that is not a list or an empty list, path
+// tag shadowed by a point tag, duplicated path tag), through every build mode
+// and AddFeature as a new feature and as the replacement of a valid path (alone
+// and under an area) on both mutable worlds; validated the same way.
 package main
 
 import (
@@ -245,7 +251,7 @@ func main() {
 	ops := hist.FeatureOps()
 	kit.Main(&kit.Check{
 		ID: "C37", Level: "exploration",
-		Rule: "Part A: every choice of one variant per slot of the worldkit menu extended with invalid variants x source order, built in five build modes (order-independent modes once); non-trivial = the source holds a feature that is invalid as given; distinct by menu choice. Part B: the C13 search (world kind x seed x first op; breadth-first over accepted AddFeature ops, deduplicated by private state), the validator run at every state and after every attempt (AddFeature accepted or rejected, MergedChange applied or failing). Part C: every sequence of 1..n polygon kinds (explicit s2 polygon | one path ID x path state | outer + hole path IDs x path states; every slot owns its IDs and grid patch) as one area, (a) built in the five build modes x source orders, (b) added with AddFeature to a BasicMutableWorld, a MutableOverlayWorld over an empty base and one over a basic base holding the points and paths, (c) for sequences naming only valid paths: each named path replaced with AddFeature by every other path state, on the same worlds and on an overlay whose base also holds the area; the validator is run on every world returned by a build and after every AddFeature (accepted or rejected); non-trivial = some polygon of the area is invalid as given (replacements: always); distinct by entry x sequence. Oracle: independent validator over EachFeature: paths >= 2 points, every point resolves to a location, paths closed by reference form valid counter-clockwise loops, areas name only existing closed paths of >= 3 points (a boundary closed only by coordinates must be a valid counter-clockwise loop too).",
+		Rule: "Part A: every choice of one variant per slot of the worldkit menu extended with invalid variants x source order, built in five build modes (order-independent modes once); non-trivial = the source holds a feature that is invalid as given; distinct by menu choice. Part B: the C13 search (world kind x seed x first op; breadth-first over accepted AddFeature ops, deduplicated by private state), the validator run at every state and after every attempt (AddFeature accepted or rejected, MergedChange applied or failing). Part C: every sequence of 1..n polygon kinds (explicit s2 polygon | one path ID x path state | outer + hole path IDs x path states; every slot owns its IDs and grid patch) as one area, (a) built in the five build modes x source orders, (b) added with AddFeature to a BasicMutableWorld, a MutableOverlayWorld over an empty base and one over a basic base holding the points and paths, (c) for sequences naming only valid paths: each named path replaced with AddFeature by every other path state, on the same worlds and on an overlay whose base also holds the area; the validator is run on every world returned by a build and after every AddFeature (accepted or rejected); non-trivial = some polygon of the area is invalid as given (replacements: always); distinct by entry x sequence. Part D: every tag list of the alphabet of degenerate tag lists for a feature with a path-typed ID (reserved tags path / point absent, of the wrong value type, empty, shadowing each other, duplicated) x ID scheme, (a) as a source feature alone, under an area and next to another path and a relation, built in the five build modes x source orders, (b) given to AddFeature as a new feature, as the replacement of a valid closed path and as the replacement of a valid closed path under an area, on a BasicMutableWorld, a MutableOverlayWorld over an empty base and MutableOverlayWorlds whose base holds the points / the replaced path / the area; validator run as in part C; non-trivial = the tag list does not read as a path of >= 2 points; distinct by entry x scheme x tag list. Oracle: independent validator over EachFeature: paths >= 2 points, every point resolves to a location, paths closed by reference form valid counter-clockwise loops, areas name only existing closed paths of >= 3 points (a boundary closed only by coordinates must be a valid counter-clockwise loop too).",
 		Assumptions: []string{
 			"loop validity and orientation are decided in the plane on the E7 grid with exact integer arithmetic (features span < 1e-3 degrees, so planar and spherical answers agree)",
 			"a path is closed when its first and last entries are the same point feature; equal literal coordinates make a path a closed loop only where an area uses it as boundary",
@@ -266,8 +272,13 @@ func main() {
 			nA := kit.Product(rad) * int64(norders)
 			nB := int64(len(combos)) * int64(1+len(ops))
 			pc := newPartC(tier)
-			return kit.FuncSpace{N: nA + nB + pc.Len(), F: func(i int64) kit.Result {
+			pd := newPartD(tier)
+			nC := pc.Len()
+			return kit.FuncSpace{N: nA + nB + nC + pd.Len(), F: func(i int64) kit.Result {
 					var r kit.Result
+					if i >= nA+nB+nC {
+						return pd.Run(i - nA - nB - nC)
+					}
 					if i >= nA+nB {
 						return pc.Run(i - nA - nB)
 					}
@@ -297,8 +308,8 @@ func main() {
 					choice := kit.Digits(i/int64(norders), rad)
 					runBuilds(slots, choice, order, &r)
 					return r
-				}}, fmt.Sprintf("part A: %d menu worlds x %d source orders x 5 build modes; part B: %d world kinds x seeds, histories of <= %d accepted ops over %d ops, %d AddFeature + %d MergedChange attempts at every state; %s",
-					kit.Product(rad), norders, len(combos), opt.Depth, len(ops), len(ops), len(hist.MergedMenu(opt.MergedPairs)), pc.describe())
+				}}, fmt.Sprintf("part A: %d menu worlds x %d source orders x 5 build modes; part B: %d world kinds x seeds, histories of <= %d accepted ops over %d ops, %d AddFeature + %d MergedChange attempts at every state; %s; %s",
+					kit.Product(rad), norders, len(combos), opt.Depth, len(ops), len(ops), len(hist.MergedMenu(opt.MergedPairs)), pc.describe(), pd.describe())
 		},
 	})
 }
